@@ -258,4 +258,61 @@ Proof.
   - cbn. intros H; inversion H; reflexivity.
 Qed.
 
+(* ---- C05: commit inside repetitions ---- *)
+(* an iteration (after the first) that fails after a cut commits: the repetition fails *)
+Lemma repeat_iter_commit_body (ev : @ev_t unit) e omitsep f :
+  ev e (push (push f)) tt = (Fail true, tt) ->
+  repeat_iter pcut ev e None omitsep f tt = (ICommit, tt).
+Proof. intros H. unfold repeat_iter. rewrite H. cbn. reflexivity. Qed.
+
+Lemma repeat_iter_stop_body (ev : @ev_t unit) e omitsep f :
+  ev e (push (push f)) tt = (Fail false, tt) ->
+  repeat_iter pcut ev e None omitsep f tt = (IStop, tt).
+Proof. intros H. unfold repeat_iter. rewrite H. cbn. reflexivity. Qed.
+
+(* a join commits after each separator: once the separator matched, a failing element is fatal to the join *)
+Lemma repeat_iter_join_commits (ev : @ev_t unit) e s omitsep f v f4 c :
+  ev s (push (push f)) tt = (Ok v f4, tt) ->
+  (forall F, ev e (push F) tt = (Fail c, tt)) ->
+  repeat_iter pcut ev e (Some s) omitsep f tt = (ICommit, tt).
+Proof.
+  intros Hs He. unfold repeat_iter. rewrite Hs, He. destruct omitsep; cbn; reflexivity.
+Qed.
+
+Lemma repeat_go_commit k (ev : @ev_t unit) e sep omitsep f :
+  repeat_iter pcut ev e sep omitsep f tt = (ICommit, tt) ->
+  repeat_go pcut (S k) ev e sep omitsep f tt = (Fail (cutseen f), tt).
+Proof. intros H. cbn [repeat_go]. rewrite H. reflexivity. Qed.
+
+(* ---- C05: containment - these constructs never leak a cut to their caller ---- *)
+Theorem peval_contained n e f :
+  (match e with Call _ | Choice _ | Opt _ | Rep _ _ _ _ | Look _ _ | SkipGroup _ => True | _ => False end) ->
+  match peval' (S n) e f with
+  | Ok _ f' => cutseen f' = cutseen f
+  | Fail c => c = cutseen f
+  | Fatal _ => True
+  end.
+Proof.
+  intros He. destruct e as [l|es|es|e1|e1|e1|plus sep omitsep e1|neg e1|e1|r|il nm e1|il e1]; try contradiction.
+  - (* Choice *)
+    unfold peval. rewrite geval_S. destruct (choice_go unsafe (pev n) es f tt) as [[v f'|c|x] []] eqn:E; cbn [fst].
+    + eapply choice_contained; exact E.
+    + eapply choice_fail_flag; exact E.
+    + exact I.
+  - (* SkipGroup *)
+    unfold peval. rewrite geval_S. destruct (pev n e1 (push f) tt) as [[v f1|c|x] []]; cbn; auto.
+  - (* Opt *)
+    rewrite peval_optional. destruct (peval' n e1 (add_defined unsafe (Opt e1) (push f))) as [v f1|[|]|x]; cbn; auto.
+  - (* Rep *)
+    unfold peval. rewrite geval_S. unfold rep_eval. destruct plus.
+    + destruct (rep_body pcut n (pev n) e1 sep omitsep (push f) tt) as [[v f1|c|x] []]; cbn; auto.
+    + destruct (rep_body pcut n (pev n) e1 sep omitsep (push (set_cst (push f) (VList false []))) tt)
+        as [[v f1|[|]|x] []]; cbn; auto.
+  - (* Look *)
+    unfold peval. rewrite geval_S. destruct neg; destruct (pev n e1 (push f) tt) as [[v f1|c|x] []]; cbn; auto.
+  - (* Call *)
+    destruct (peval' (S n) (Call r) f) as [v f'|c|x] eqn:E; [|eapply peval_call_contains_cut; exact E|exact I].
+    destruct (peval_call_one_element _ _ _ _ _ E) as [np [_ [Hc _]]]. exact Hc.
+Qed.
+
 End Laws.
